@@ -676,11 +676,17 @@ package redis
 //@ func (*upstream).MakeRequestToHost
 //@   prop C02 C04 C20
 //@   consumes req
-//@   requires u != nil && req != nil
+//@   requires req != nil && req.body != nil && len(req.body.Array) >= 1
+
+//@ func (*upstream).getClient
+//@   prop C07 C02
+//@   ensures @client-or-error result1 == nil ==> result0 != nil
+//@   assume @ret result1 == nil ==> result0 != nil
 
 //@ func (*client).Send
 //@   prop C02
 //@   consumes req
+//@   requires req != nil && req.body != nil && len(req.body.Array) >= 1
 
 //@ func (*client).loopWrite
 //@   prop C02 C01
